@@ -161,7 +161,10 @@ func driveVerify(c *ctx) {
 		case 2:
 			digest = be32(add(bigN, int64(i)))[:]
 		case 3:
-			digest = randBytes(rng, 64)
+			digest = randBytes(rng, []int{64, 65, 100, 512, 33, 48}[(i/6)%6]) // only the leftmost 32 bytes count, however long the digest
+		case 4:
+			// a digest with leading zero bytes: its short form (the zeros cut off) is NOT a digest — verification must not pad it back
+			digest = append(make([]byte, 1+(i/6)%31), randBytes(rng, 32)...)[:32]
 		default:
 			digest = randBytes(rng, 32)
 		}
@@ -218,6 +221,16 @@ func driveVerify(c *ctx) {
 			dg := make([]byte, l)
 			copy(dg, digest)
 			raw(pub, dg, rb, sb)
+		}
+		if i%6 == 4 { // the zero-stripped (short) forms of a digest that begins with zero bytes, through every entry point
+			short := bytes.TrimLeft(digest, "\x00")
+			for _, dg := range [][]byte{short, digest[1:], append([]byte{}, short...)} {
+				raw(pub, dg, rb, sb)
+				enc(pub, dg, secec.BuildASN1Signature(r, s), nil)
+				enc(pub, dg, secec.BuildCompactSignature(r, s), &secec.ECDSAOptions{Encoding: secec.EncodingCompact})
+				enc(pub, dg, secec.BuildASN1Signature(r, s), &secec.ECDSAOptions{Hash: crypto.SHA1})
+				enc(pub, dg, secec.BuildASN1Signature(r, s), &secec.ECDSAOptions{Hash: crypto.SHA224})
+			}
 		}
 		// r, s >= n and zero through the compact encodings (the parser must reject)
 		for _, bad := range []*big.Int{bigN, add(bigN, 1), add(big2_256, -1), big.NewInt(0)} {
@@ -684,7 +697,7 @@ func driveSign(c *ctx) {
 			}
 		}
 		// digest lengths 0..64 through SignRaw (nil options semantics: >= 32 bytes admissible)
-		for _, l := range []int{0, 1, 31, 32, 33, 47, 48, 63, 64, 65} {
+		for _, l := range []int{0, 1, 31, 32, 33, 47, 48, 63, 64, 65, 100, 512} {
 			dg := randBytes(rng, l)
 			r, s, v, err := priv.SignRaw(secec.RFC6979SHA256(), dg)
 			c.E("sig.Raw", "d", h32(d), "digest", hx(dg), "rng", "rfc6979", "ok", err == nil, "r", scHexOr(r), "s", scHexOr(s), "v", int(v))
@@ -866,7 +879,7 @@ func driveRecover(c *ctx) {
 		digest := randBytes(rng, 32)
 		switch i % 5 {
 		case 0:
-			digest = randBytes(rng, 64)
+			digest = randBytes(rng, []int{64, 65, 100, 512, 33}[(i/5)%5]) // any length from 32 up
 		case 1: // digests whose leading 32 bytes are >= n (reduced mod n by every operation alike), zero, all ones
 			digest = [][]byte{bytes.Repeat([]byte{0xff}, 32), be32(bigN)[:], be32(add(bigN, 7))[:], bytes.Repeat([]byte{0xff}, 64), make([]byte, 32)}[(i/5)%5]
 		}
@@ -982,6 +995,13 @@ func driveKeys(c *ctx) {
 	}
 	for _, l := range []int{0, 1, 31, 33, 64} {
 		cands = append(cands, randBytes(rng, l))
+	}
+	// a VALID scalar inside a string of another length: a sign octet in front (as DER INTEGER / BigInteger serialisers emit), any other
+	// octet in front, an octet behind, the first octet missing, the scalar twice — a private key is 32 bytes and nothing else
+	for i := 0; i < 3; i++ {
+		k := be32(add(randBig(rng, add(bigN, -1)), 1))[:]
+		cands = append(cands, append([]byte{0}, k...), append([]byte{1}, k...), append([]byte{0xff}, k...), append(append([]byte{}, k...), 0),
+			k[1:], append(append([]byte{}, k...), k...))
 	}
 	for _, b := range cands {
 		k, err := secec.NewPrivateKey(append([]byte{}, b...))
@@ -1128,6 +1148,15 @@ func driveKeys(c *ctx) {
 		pub(append(append([]byte{4}, be32(new(big.Int).Add(p.x, bigP))[:]...), be32(p.y)[:]...), false)
 		pub(append([]byte{byte(2 + p.y.Bit(0))}, be32(new(big.Int).Add(p.x, bigP))[:]...), false)
 	}
+	// a VALID point inside a string of another length or framing: x || y without the prefix, x alone, an octet behind / in front
+	for i := 0; i < 3; i++ {
+		P := mulG(add(randBig(rng, add(bigN, -1)), 1))
+		u, cmn := P.UncompressedBytes(), P.CompressedBytes()
+		for _, b := range [][]byte{u[1:], cmn[1:], append(append([]byte{}, u...), 0), append(append([]byte{}, cmn...), 0), append([]byte{0}, u...), append([]byte{0}, cmn...),
+			append([]byte{4}, cmn...), append([]byte{cmn[0]}, u[1:]...)} {
+			pub(b, false)
+		}
+	}
 	// from points (any representative, identity refused)
 	for _, p := range []*secp256k1.Point{secp256k1.NewIdentityPoint(), idRep(big.NewInt(3)), secp256k1.NewGeneratorPoint(), rep(mulG(randBig(rng, bigN)), big.NewInt(5))} {
 		k, err := secec.NewPublicKeyFromPoint(p)
@@ -1136,6 +1165,51 @@ func driveKeys(c *ctx) {
 			u, cm = hx(k.Bytes()), hx(k.CompressedBytes())
 		}
 		c.E("key.PublicFromPoint", "p", ptRaw(p), "ok", err == nil, "unc", u, "cmp", cm)
+	}
+	// ... and from Point OBJECTS with a history: decoded / generator / from-coordinates objects recycled as the receiver of a
+	// multiplication or of group operations before the key is built from them (whatever a Point remembers about how it was made
+	// must not reach the key's cached encodings)
+	for i := 0; i < c.scale(12, 60); i++ {
+		base := mulG(add(randBig(rng, add(bigN, -1)), 1))
+		var p *secp256k1.Point
+		switch i % 4 {
+		case 0:
+			p, _ = secp256k1.NewPointFromBytes(base.CompressedBytes())
+		case 1:
+			p, _ = secp256k1.NewPointFromBytes(base.UncompressedBytes())
+		case 2:
+			p = secp256k1.NewGeneratorPoint()
+		default:
+			u := base.UncompressedBytes()
+			p, _ = secp256k1.NewPointFromCoords((*[32]byte)(u[1:33]), (*[32]byte)(u[33:65]))
+		}
+		sc := scFrom(add(randBig(rng, add(bigN, -1)), 1))
+		switch (i / 4) % 6 {
+		case 0:
+			p.ScalarMult(sc, p)
+		case 1:
+			p.ScalarBaseMult(sc)
+		case 2:
+			p.MultiScalarMult([]*secp256k1.Scalar{sc, sc}, []*secp256k1.Point{p, base})
+		case 3:
+			p.DoubleScalarMultBasepointVartime(sc, sc, p)
+		case 4:
+			p.Identity()
+			p.Add(p, base)
+			p.Double(p)
+		default:
+			p.MultiScalarMultVartime([]*secp256k1.Scalar{sc}, []*secp256k1.Point{base})
+		}
+		k, err := secec.NewPublicKeyFromPoint(p)
+		u, cm := "", ""
+		if err == nil {
+			u, cm = hx(k.Bytes()), hx(k.CompressedBytes())
+			c.E("sig.Stable", "then", u, "now", hx(k.Point().UncompressedBytes()), "later_enc", "key_point_view")
+			if k2, err2 := secec.NewPublicKey(k.Bytes()); err2 != nil || !k2.Equal(k) {
+				c.E("lib.Unexpected", "what", "a key's own encoding does not import back to an equal key")
+			}
+		}
+		c.E("key.PublicFromPoint", "p", ptRaw(p), "ok", err == nil, "unc", u, "cmp", cm, "recycled", 1)
 	}
 	// key objects are immutable: scribble over everything handed out or passed in, then use the keys again
 	for i := 0; i < c.scale(6, 60); i++ {
